@@ -37,6 +37,7 @@ Record lbpconsts := mkLbp {
   lbp_sym_default : Z;           (* symbol not in the table *)
   lbp_zero_syms : list string;   (* names forced to a constant before the table lookup ("if") *)
   lbp_zero_val : Z;
+  lbp_noled_val : Z;             (* found in the table but MunchLeft == nil (prefix-only operator) *)
   key_comma : string;            (* env.infixOps["comma"] used for a comma token *)
   key_dot : string;              (* env.infixOps["."] used for a dot symbol *)
   array_bp : Z;                  (* arrayOp.Bp *)
